@@ -176,6 +176,8 @@ pub(crate) fn repair_snapshots<S: IndexedFull>(
     let mut state = RepairState::new(opts, repo.index());
     let modifier = TreeModifier::new(be, repo.index(), config_file, dry_run)?;
 
+    // modified snapshots are only saved once the new trees are flushed to pack and index files
+    let mut modified_snaps = Vec::new();
     for mut snap in snapshots {
         let snap_id = snap.id;
         info!("processing snapshot {snap_id}");
@@ -207,14 +209,18 @@ pub(crate) fn repair_snapshots<S: IndexedFull>(
                 if dry_run {
                     info!("would have modified snapshot {snap_id}.");
                 } else {
-                    let new_id = be.save_file(&snap)?;
-                    info!("saved modified snapshot as {new_id}.");
+                    modified_snaps.push((snap_id, snap));
                 }
                 state.delete.push(snap_id);
             }
         }
     }
     modifier.finalize()?;
+
+    for (snap_id, snap) in modified_snaps {
+        let new_id = be.save_file(&snap)?;
+        info!("saved modified snapshot {snap_id} as {new_id}.");
+    }
 
     if opts.delete {
         if dry_run {
